@@ -252,3 +252,47 @@ def _build_ns2():
 
 
 _build_ns2()
+
+
+AA_POOL = ["", "A", "C", "AA", "AC", "CA", "ACD", "CCD", "AAC", "AAAC", "AAA", "CCC", "CCD", "ACDE", "AAAA"]
+
+
+@scope("lookupdb_lookup")
+def lookupdb_lookup(rng):
+    for _ in range(3000):
+        ref = [rng.choice(AA_POOL) for _ in range(rng.randint(1, 4))]
+        qs = [rng.choice(AA_POOL) for _ in range(rng.randint(1, 4))]
+        pd = rng.random() < 0.4
+        if pd:
+            qs = ref
+        yield {"self": py(f"prs.nn.LookupDB(np.array({ref!r}))"), "seqs2": seq([S(x) for x in qs], "ndarray"),
+               "max_edits": I(rng.choice([1, 1, 2])), "pdist_mode": {"t": "const", "v": pd},
+               "custom_distance": py(rng.choice(CUSTOM_FNS)), "max_custom_distance": rng.choice([{"t": "inf"}, R(1), R(20)]),
+               "output_type": {"t": "const", "v": rng.choice(["triplets", "coo_matrix"])}, "progress": {"t": "const", "v": False}}
+
+
+@scope("symdeldb_lookup")
+def symdeldb_lookup(rng):
+    for _ in range(3000):
+        ref = [rng.choice(AA_POOL) for _ in range(rng.randint(1, 4))]
+        qs = [rng.choice(AA_POOL) for _ in range(rng.randint(1, 4))]
+        k = rng.choice([1, 1, 2])
+        yield {"self": py(f"prs.nn.SymdelDB(np.array({ref!r}), {k})"), "seqs2": seq([S(x) for x in qs], rng.choice(["list", "ndarray"])),
+               "custom_distance": py(rng.choice(CUSTOM_FNS)), "max_custom_distance": rng.choice([{"t": "inf"}, R(1), R(20)]),
+               "output_type": {"t": "const", "v": rng.choice(["triplets", "coo_matrix"])}, "progress": {"t": "const", "v": False}}
+
+
+@scope("generate_neighbors")
+def generate_neighbors(rng):
+    for q in ["", "A", "AC", "AAC"]:
+        for k in (0, 1, 2):
+            for h in (False, True):
+                yield {"query": S(q), "max_edits": I(k), "is_hamming": {"t": "const", "v": h}}
+
+
+def _build_ns3():
+    import pyrepseq as prs
+    BUILD_NS.update(prs=prs)
+
+
+_build_ns3()
